@@ -2,7 +2,7 @@
 """keep_seed.py <tmp-id> <name> <property> : copy a confirmed seeded change into /verif/seeded/<name>/"""
 import sys, os, shutil, json, subprocess
 tid, name, prop = sys.argv[1:4]
-src = f"/tmp/seed/{tid}"
+src = os.environ.get("SEED_SRC", "/tmp/seed") + f"/{tid}"
 dst = f"/verif/seeded/{name}"
 os.makedirs(dst, exist_ok=True)
 for f in ("patch.diff", "demo.rs", "notes.md", "confirm.txt"):
